@@ -2,6 +2,7 @@ import Proofs.PrebuildChain
 import Proofs.PrebuildTyping
 import Proofs.PrebuildMech
 import PyxModel.Prebuild.Recipe
+import Proofs.PbShape          -- PBSHAPE: source tie of the flat builder
 import Proofs.PrebuildFlatStmt   -- FLAT: the flat population model
 
 /-!
@@ -359,8 +360,8 @@ example : ∃ b, (buildExpr { ees := [], classes := [] } (.bin (.int "1") "+" (.
     (by decide)).2.2.1
 
 /-- BODY level, sub-subset `coreB` (statement lists of assignment to a variable / attribute, return, break, continue,
-    control stop, create with / without variable, select from instances, delete, relate / unrelate (+ using), and `while`
-    loops over such lists, nested to any depth): in the population of a whole body every key that is
+    control stop, create with / without variable, select from instances, delete, relate / unrelate (+ using), `while`
+    loops and `if` without elif / else over such lists, nested to any depth): in the population of a whole body every key that is
     searched backwards — the supertype an R603 / R801 subtype row names, Block_ID (R602) and Previous_Statement_ID
     (R661) of an ACT_SMT, the `if` of an ACT_EL / ACT_E (R682 / R683) — names a row created EARLIER: it exists (no
     dangling key) and the successor relation has no cycle.
@@ -435,5 +436,50 @@ example : subCount (prebuildFlat { ees := [], classes := ["DOG"] }
     (by decide) (by decide) 5 (by decide)
 
 end Flat
+
+/-! ### PBSHAPE — the builder of Flat.lean tied to the TEXT of bridgepoint/prebuild.py
+
+  translator/gen_pbshape.py re-reads, on every run, the statement structure of the helpers and `accept_*` handlers of
+  ActionPrebuilder (Gen/PbShape.lean); Proofs/PbShape.lean interprets that IR generically over the builder state `St`
+  (a new row = `self.new`, a link = rewriting the referential attribute of the row that holds it: the tables `setRef` /
+  `partnerOk` / `setElem` there are the hand-modelled atom).  Proved equal to Flat.lean so far: the helper `act_smt`
+  (R602) and one round of the loop of accept_StatementListNode (R661: who is related to whom, in which direction, with
+  which phrase).  Flat.lean's deviation in form — Previous_Statement_ID written when the row is created — is NOT hidden:
+  the interpretation yields `linkPrev prev …` applied to `buildStmt fc none child`, and
+  `previous_statement_written_late_partial` shows that this is `buildStmt fc prev child` for break / continue / control /
+  a bare return (the general statement needs a simulation over all of buildStmt and is not proved). -/
+section PbShape
+open Pyx.Prebuild.Flat Pyx.PbShape Pyx.Gen.PbShape
+
+theorem act_smt_as_in_source (fc : FCtx) (nd : Node) (g : G) (hb : BlkOK g.st) :
+    callFn (mkEnv fc nd) 12 act_smt [.node] [] g = some (.inst (newSmt none g.st).1, { g with st := (newSmt none g.st).2 }) :=
+  act_smt_eq fc nd g hb
+
+theorem statement_list_as_in_source (fc : FCtx) (nd : Node) (g : G) (fr : Fr) (i b : Nat) (stmt : Stmt) (prev : Option Nat)
+    (hp : fr.get "prev" = prevV prev) (hk : nd.children[i]? = some (stmtAcc fc stmt))
+    (hs : (buildStmt fc none stmt g.st).2.pop[(buildStmt fc none stmt g.st).1]? = some (.smt b none))
+    (he : ∀ e, prev = some e → ∃ b' p', (buildStmt fc none stmt g.st).2.pop[e]? = some (.smt b' p')) :
+    exec (mkEnv fc nd) 20 g (fr.set "child" (.child i)) stmtListBody
+      = some (.next (((fr.set "child" (.child i)).set "act_smt" (.inst (buildStmt fc none stmt g.st).1)).set "prev"
+                (.inst (buildStmt fc none stmt g.st).1)),
+              { g with st := linkPrev prev (buildStmt fc none stmt g.st).1 (buildStmt fc none stmt g.st).2 }) :=
+  stmt_list_step fc nd g _ fr i _ b (stmtAcc fc stmt) prev hp hk rfl hs he
+
+theorem previous_statement_written_late_partial (fc : FCtx) (prev : Option Nat) (st : St) (s : Stmt)
+    (hs : s = .brk ∨ s = .cont ∨ s = .ctl ∨ s = .ret none) :
+    linkPrev prev (buildStmt fc none s st).1 (buildStmt fc none s st).2 = (buildStmt fc prev s st).2 := by
+  obtain ⟨pop, scopes, ok⟩ := st
+  rcases hs with rfl | rfl | rfl | rfl <;> cases prev <;>
+    simp [buildStmt, newSmt, St.new, St.guard, St.fail, linkPrev] <;> split <;> simp
+
+example : (exec (mkEnv { ees := [], classes := [] } demoNd) 20 demoG demoFr stmtListBody).map (·.2.st.pop)
+    = some [.blk true, .smt 0 none, .brk 1, .smt 0 (some 1), .con 3] := by decide
+example : (exec (mkEnv { ees := [], classes := [] } demoNd) 20 demoG demoFr stmtListBodySwapped).map (·.2.st.pop)
+    = some [.blk true, .smt 0 (some 3), .brk 1, .smt 0 none, .con 3] := by decide
+example : (exec (mkEnv { ees := [], classes := [] } demoNd) 20 demoG demoFr stmtListBodySucceeds).map (·.2.st.pop)
+    = some [.blk true, .smt 0 (some 3), .brk 1, .smt 0 none, .con 3] := by decide
+example : stmtListBody ≠ [] := by decide
+
+end PbShape
 
 end PyxProps.C06
